@@ -46,6 +46,7 @@ RULES = {
     "R-ENDED-BY-TABLE": closing.r_ended_by_table,
     "R-CLOSE-UNKNOWN-ONLY": closing.r_close_unknown_only,
     "R-MATCHER-TABLE": closing.r_matcher_table,
+    "R-MATCHER-TABLE/rejects": closing.r_matcher_table_rejects,
     "R-DERIVE-EXPANSION": derive.r_derive_expansion,
     "R-DERIVE-REJECTS": derive.r_derive_rejects,
 }
@@ -70,7 +71,7 @@ PROPERTIES = {
                        "and the payload decoders' length classes.  Not decided: that the decoded number/string equals the bytes' value.",
     },
     "C06": {
-        "rules": ["R-STACK-END", "R-CLOSE", "R-OVERRUN-ALL", "R-SHARED-MATCHER", "R-TOL-STRICT", "R-CLOSE-UNKNOWN-ONLY", "R-MATCHER-TABLE"],
+        "rules": ["R-STACK-END", "R-CLOSE", "R-OVERRUN-ALL", "R-SHARED-MATCHER", "R-TOL-STRICT", "R-CLOSE-UNKNOWN-ONLY", "R-MATCHER-TABLE/rejects"],
         "level": "other",
         "explanation": "Typestate/value-flow rules over read_next and header validation: only End-form tags are stored on the open-master stack; the "
                        "stack shrinks only at the three closing sites (exhausted known-size masters drained innermost-first before the next header, "
